@@ -78,12 +78,26 @@ def write_if_changed(path, text):
     return True
 
 
+_KNOWN_CACHE = None
+
+
 def load_known():
+    """known_findings.json, read once per process (retry on a concurrent rewrite)"""
+    global _KNOWN_CACHE
+    if _KNOWN_CACHE is not None:
+        return _KNOWN_CACHE
     p = os.path.join(ROOT, "known_findings.json")
-    try:
-        return json.load(open(p))["findings"]
-    except OSError:
-        return []
+    for _ in range(5):
+        try:
+            _KNOWN_CACHE = json.load(open(p))["findings"]
+            return _KNOWN_CACHE
+        except OSError:
+            _KNOWN_CACHE = []
+            return _KNOWN_CACHE
+        except ValueError:
+            time.sleep(0.2)
+    _KNOWN_CACHE = []
+    return _KNOWN_CACHE
 
 
 class Check:
